@@ -23,6 +23,16 @@ POOL = [
     "when: 2001-02-03\nat: 2001-12-14T21:59:43.5Z\n",
     "m: &B\n  x: 1\nn:\n  <<: *B\n  y: 2\n",
 ]
+BASE_N = len(POOL)
+# scalar anchors of one name with equal and different values, and a neutral
+# document: streams of these fold >= 3 documents into one Merger, so anchor
+# conflicts are resolved against a left side that earlier steps have changed
+POOL += [
+    "x: &a 1\ny: *a\n", "p: &a 2\nq:\n  - *a\n", "r: &a 3\ns: *a\n",
+    "t: &a 2\nu: *a\n", "v: &a_1 7\nw: *a_1\n", "n: 0\n",
+]
+ANCHOR_IDX = list(range(BASE_N, len(POOL)))
+ANCHOR_POLICIES = ["left", "right", "rename", "stop"]
 MODES = ["condense_all", "merge_across", "matrix_merge"]
 MIXES = [("deep", "all", "all", "unique"), ("deep", "unique", "deep", "unique"),
          ("deep", "all", "unique", "left"), ("right", "left", "all", "right"),
@@ -55,8 +65,9 @@ def stream_text(idxs):
 
 def config_for(mix, mode):
     from yamlpath.merger import MergerConfig
-    h, a, o, s = mix
-    args = SimpleNamespace(hashes=h, arrays=a, aoh=o, sets=s, anchors="stop",
+    h, a, o, s = mix[:4]
+    args = SimpleNamespace(hashes=h, arrays=a, aoh=o, sets=s,
+                           anchors=mix[4] if len(mix) > 4 else "stop",
                            multi_doc_mode=mode)
     return MergerConfig(gdocs.logger(), args)
 
@@ -201,25 +212,56 @@ def check_case(lidx, ridx, mix, mode, res, tmpdir):
     res.label("lens:%dx%d" % (len(lidx), len(ridx)))
 
 
-def all_streams(maxlen):
-    n = len(POOL)
+def all_streams(maxlen, idxs=None):
+    idxs = range(BASE_N) if idxs is None else idxs
     for k in range(1, maxlen + 1):
-        for combo in itertools.product(range(n), repeat=k):
+        for combo in itertools.product(idxs, repeat=k):
             yield combo
 
 
 def plan(tier, seed):
     nsh = 32
-    return [{"kind": "enum", "part": i, "parts": nsh, "offset": seed,
-             "maxlen": 3 if tier == "quick" else 4,
-             "stride": 2600 if tier == "quick" else 9000}
-            for i in range(nsh)]
+    shards = [{"kind": "enum", "part": i, "parts": nsh, "offset": seed,
+               "maxlen": 3 if tier == "quick" else 4,
+               "stride": 2600 if tier == "quick" else 9000}
+              for i in range(nsh)]
+    shards += [{"kind": "anchors", "part": i, "parts": 16, "offset": seed,
+                "stride": 11 if tier == "quick" else 1}
+               for i in range(16)]
+    return shards
+
+
+def _run_anchor_streams(shard, res, dl, tmpdir):
+    lefts = list(all_streams(2, ANCHOR_IDX))
+    rights = list(all_streams(3, ANCHOR_IDX))
+    n = 0
+    for ls in lefts:
+        for rs in rights:
+            for mode in MODES:
+                for pol in ANCHOR_POLICIES:
+                    n += 1
+                    if n % shard["parts"] != shard["part"]:
+                        continue
+                    if (n // shard["parts"] + shard["offset"]) \
+                            % shard["stride"]:
+                        continue
+                    if dl.expired():
+                        res.truncated = True
+                        return
+                    check_case(ls, rs, MIXES[0] + (pol,), mode, res, tmpdir)
+                    res.label("anchors:" + pol)
 
 
 def run_shard(shard):
     res = Result()
     dl = Deadline(shard.get("budget_s"))
     tmpdir = tempfile.mkdtemp(prefix="vp-c18-")
+    if shard["kind"] == "anchors":
+        try:
+            _run_anchor_streams(shard, res, dl, tmpdir)
+        finally:
+            shutil.rmtree(tmpdir, ignore_errors=True)
+        return res
     try:
         streams = list(all_streams(shard["maxlen"]))
         n = 0
